@@ -155,6 +155,10 @@ def _extract_one(job):
     unit, flags, files_re, mpath, patterns = job
     hit = _manifest_lookup(mpath)
     if hit:
+        try:
+            os.utime(hit)           # least-recently-used pruning goes by mtime
+        except OSError:
+            pass
         return unit, hit, 0.0, "", True
     t0 = time.time()
     out = mpath[:-5] + "-%s.facts" % hashlib.sha256(
@@ -299,17 +303,19 @@ def extract(units, root="/repo", files_re=None, dist=False, ndebug=True,
     return facts
 
 
-def prune_cache(keep_hours=3, max_bytes=3 << 30):
-    """drop fact files not used recently when the cache grows large"""
+def prune_cache(max_bytes=14 << 30):
+    """keep the cache bounded: when it exceeds max_bytes drop the least recently used fact files (self-test scratch roots
+    leave one copy of every unit per root and mutant) until it is at 3/4 of the limit"""
     try:
         files = glob.glob(os.path.join(CACHE, "*.facts"))
-        total = sum(os.path.getsize(p) for p in files)
+        sizes = {p: os.path.getsize(p) for p in files}
+        total = sum(sizes.values())
         if total < max_bytes:
             return
-        now = time.time()
         for p in sorted(files, key=os.path.getmtime):
-            if now - os.path.getmtime(p) > keep_hours * 3600 or total > max_bytes:
-                total -= os.path.getsize(p)
-                os.unlink(p)
+            if total <= max_bytes * 3 // 4:
+                break
+            total -= sizes[p]
+            os.unlink(p)
     except OSError:
         pass
